@@ -1,0 +1,63 @@
+//go:build verif
+
+package k8s
+
+// Contracts for the verification harness under /verif (comment-only file).
+//
+// C13 / C15: k8s multiline action.  State invariant: the buffer always starts
+// with its opening quote (len >= 1) and, with a size limit, never grows beyond
+// limit-2 (limit >= 3: smaller limits are outside the contract).  Under it every
+// slice of the escaped log fragment is in range for every event content: an empty
+// string, a non-string value, fragments shorter than the "\n" marker.
+
+//@ func (*MultilineAction).resetLogBuf
+//@   requires len(p.eventBuf) >= 1
+//@   modifies p.eventBuf, p.eventSize, p.cutOffEvent
+//@   ensures len(p.eventBuf) == 1 && p.eventSize == 0 && !p.cutOffEvent
+
+//@ func (*MultilineAction).Do
+//@   option allow-exit yes
+//@   option allow-panic yes
+//@   requires event != nil && len(p.eventBuf) >= 1
+//@   requires p.maxEventSize == 0 || (p.maxEventSize >= 3 && len(p.eventBuf) <= p.maxEventSize - 2)
+//@   loop 1 invariant len(p.eventBuf) >= 1 && (p.maxEventSize == 0 || (p.maxEventSize >= 3 && len(p.eventBuf) <= p.maxEventSize - 2)) && event != nil
+//@   loop 2 invariant len(p.eventBuf) >= 1 && (p.maxEventSize == 0 || (p.maxEventSize >= 3 && len(p.eventBuf) <= p.maxEventSize - 2)) && event != nil
+//@   ensures len(p.eventBuf) >= 1
+//@   ensures p.maxEventSize == 0 || len(p.eventBuf) <= p.maxEventSize - 2
+//@   callee IsTimeoutKind() (r)
+//@     pure
+//@   callee AddFieldNoAlloc(r, n)
+//@     preserves MultilineAction, Event
+//@   callee MutateToString(s)
+//@     preserves MultilineAction, Event
+//@   callee MutateToBool(b)
+//@     preserves MultilineAction, Event
+//@   callee MutateToEscapedString(s)
+//@     preserves MultilineAction, Event
+//@   callee Dig(path)
+//@     pure
+//@   callee AsString()
+//@     pure
+//@   callee Get() (r)
+//@     pure
+//@     ensures typeis(r, "*github.com/ozontech/file.d/plugin/input/k8s.bytesBuf") && !isnil(r) && fresh(r)
+//@   callee Put(x)
+//@     pure
+//@   callee Grow(s, n) (r)
+//@     pure
+//@     ensures len(r) == len(s) && (isnil(r) || fresh(r))
+//@   callee AppendEscapedString(out) (r)
+//@     pure
+//@     ensures isnil(r) || fresh(r)
+//@   callee ByteToStringUnsafe(b)
+//@     pure
+//@   callee EncodeToString()
+//@     pure
+//@   callee IncMaxEventSizeExceeded(s)
+//@     pure
+//@   callee GetPodMeta(ns, pod, cid)
+//@     pure
+//@   callee Errorf(f, a)
+//@     pure
+//@   callee Warnf(f, a)
+//@     pure
